@@ -375,6 +375,24 @@ def step1 (s : Eng) (line : String) : Eng × String :=
           | (t, none) => ({ s with locks := t }, "busy")
           | (t, some i) => ({ s with locks := t.unlockAll i }, "rejected"))
        else run s (receiveLTX s f))
+  | "sapplyx" :: pm :: spec =>
+    -- a file whose body fails the file-level checksum: refused before anything is renamed or written
+    if !s.opened then (s, "bad-op") else
+    (match parseLTXSpec spec, pm.toNat? with
+     | some f, some pm =>
+       if !ltxSpecOK f || pm > 999 || f.pages.isEmpty then (s, "bad-op") else
+       let s := if s.hasDB then s else { s with hasDB := true, dbFile := some ByteArray.empty }
+       (match s.locks.tryAcquireWriteLock s.walMode with
+        | (t, none) => ({ s with locks := t }, "busy")
+        | (t, some i) => ({ s with locks := t.unlockAll i }, "rejected"))
+     | _, _ => (s, "bad-op"))
+  | "txapplyx" :: pm :: spec =>
+    if !s.opened then (s, "bad-op") else
+    (match parseLTXSpec spec, pm.toNat? with
+     | some f, some pm =>
+       if !ltxSpecOK f || pm > 999 || f.pages.isEmpty then (s, "bad-op") else
+       if !s.hasDB then (s, "notfound") else (s, "rejected")
+     | _, _ => (s, "bad-op"))
   | "txapply" :: spec =>
     if !s.opened then (s, "bad-op") else
     (match parseLTXSpec spec with
